@@ -63,7 +63,7 @@ PROFILES = {
         "features": FLOW_INLINE | {"run.ins", "run.comment-ref", "para.heading", "list.flat", "list.nested", "table.simple", "table.multi-para-cell", "table.empty-cell",
                                    "table.header-rows", "container.section", "excluded.comment", "unit.multi", "unit.empty"},
         "table_text_in_full_text": False, "unit_kind": "chapter", "max_units": 4, "unit_names": "Chapter ",
-        "opts": {"manifest_reversed": [False, True], "inline_removed": [False, False, "script", "style", "noscript"], "selfclose_empty_cells": [False, True], "chapter_names": [None, None, "odd"], "run_space": [False, True]},
+        "opts": {"manifest_reversed": [False, True], "inline_removed": [False, False, "script", "style", "noscript"], "selfclose_empty_cells": [False, True], "chapter_names": [None, None, "odd"], "run_space": [False, True], "repeat_dc": [False, True]},
     },
     "txt": {"sep_any": True, "ext": "txt", "render": lambda doc, **kw: simple.render_txt(doc, **kw), "features": {"run.multi", "run.tab", "run.break", "para.heading", "list.flat", "list.nested", "table.simple"},
             "table_text_in_full_text": True, "unit_kind": "single", "max_units": 1},
